@@ -17,7 +17,8 @@ TECHNIQUE = ('typestate fixpoint on clang CFGs (clang --analyze, debug.DumpCFG o
              'resume_label constants between compiler and C runtime; flow-insensitive points-to (ownership) analysis of the closure-slot allocator; '
              'path-sensitive typestate of gen->yieldfrom over the parsed C text of every SendEx caller (all #if variants, interprocedural entry states); push/pop pairing, '
              'guard tables and flag/slot agreement by structural extraction; path-sensitive dynamic-scope (save / set / restore) dataflow of the handled-exception attributes of '
-             'FunctionState over every generator method that writes them (attributes found from their readers)')
+             'FunctionState over every generator method that writes them (attributes found from their readers); error-result discipline (unchecked / dropped result of the file\'s own fallible int helpers, '
+             'instances inferred from their return statements) with an enclosing-guard test at the GeneratorExit site')
 DECIDES = ('S1: in every function of Coroutine.c/AsyncGen.c that calls __Pyx_Coroutine_test_and_set_is_running, for every combination of the #if '
            'conditions inside it: the result of the call is branched on; the "already running" branch never releases; on the acquired branch every path '
            'to a return (or the end of the function) passes __Pyx_Coroutine_unset_is_running exactly once; no second acquire while holding; macros and '
@@ -44,10 +45,13 @@ DECIDES = ('S1: in every function of Coroutine.c/AsyncGen.c that calls __Pyx_Cor
            'handled exception into the generator exactly inside an except block. '
            'EXCSCOPE: the funcstate attribute that test reads (current_except) and the re-raise variables (exc_vars) are dynamically scoped in every method of Cython/Compiler that writes them: '
            'on every normal exit the attribute holds the value found on entry (restored from a local loaded before the first write, not a constant), except clauses are generated while '
-           'current_except holds a value set by the method, the try body / else clause while it holds the entry value.')
+           'current_except holds a value set by the method, the try body / else clause while it holds the entry value. '
+           'ERRRESULT: the result of every int helper of Coroutine.c/AsyncGen.c whose returns produce both -1 (exception pending) and 0 (set extracted from the source) is consumed at each call site - '
+           'used in a condition / return, or stored in a variable read afterwards, or the failure travels through an out-parameter the caller reads - and __Pyx_Coroutine_Close sets GeneratorExit only '
+           'under a test of the result of __Pyx_Coroutine_CloseIter (PEP 380: a failing delegate.close() is what the body sees).')
 NOT_DECIDED = ('the observable trace itself (values, StopIteration payloads, finally blocks, exception chaining) — only the run-state, delegation and resume-point '
-               'bookkeeping is decided. Which exception is pending when close() resumes the body (GeneratorExit raised although closing the delegate failed), the set of exceptions close() '
-               'swallows, and the PEP 479 replacement emission (a single emission under a future-directive test, no structural partner) are not decided. Rule S3 of the design (raise => error return on the same CFGs) is not armed: its 12 untriaged sites need value '
+               'bookkeeping is decided. The set of exceptions close() '
+               'swallows (that GeneratorExit is raised in the body only when closing the delegate succeeded is decided by ERRRESULT since batch 12), and the PEP 479 replacement emission (a single emission under a future-directive test, no structural partner) are not decided. Rule S3 of the design (raise => error return on the same CFGs) is not armed: its 12 untriaged sites need value '
                'tracking and would be a proxy today. The typestate is path-sensitive only in the test_and_set result (directly, through !/__builtin_expect/'
                '== 0, or parked in one local); a release made conditional on a second, correlated flag would be reported although correct. '
                'Configurations are enumerated per function over the atoms of its own #if lines (defined(X) and X are independent atoms); macro bodies '
@@ -62,6 +66,7 @@ EXEMPT = {}
 
 # (file, single edit, rule expected to fire) — all tried on a scratch copy /tmp/scr_C23; every one was reported with a message naming the function/construct.
 MUTATIONS = [
+    ('Cython/Utility/Coroutine.c', 'SEED C23o: __Pyx_Coroutine_Close drops the result of CloseIter ((void) cast) and sets GeneratorExit unconditionally; variant: err stored but the `if (err == 0)` removed', 'C23-ERRRESULT ...:__Pyx_Coroutine_CloseIter#1 + GeneratorExit-guard'),
     ('Cython/Utility/Coroutine.c', "__Pyx__Coroutine_Throw: add `if (unlikely(!typ)) return NULL;` after Py_INCREF(yf) (early return without release; the design's mutation)", 'C23-S1 return-while-held'),
     ('Cython/Utility/Coroutine.c', '__Pyx_Coroutine_AmSend: delete unset_is_running in the `if (likely(ret))` block', 'C23-S1 return-while-held `return PYGEN_NEXT;`'),
     ('Cython/Utility/Coroutine.c', '__Pyx_Generator_Next: add unset_is_running before `return AlreadyRunningError` ', 'C23-S1 release-on-busy-branch'),
@@ -103,6 +108,7 @@ MUTATIONS = [
     ('Cython/Compiler/Nodes.py', 'ExceptClauseNode: exc_vars restore dropped; TryFinallyStatNode: exc_vars reset to None', 'C23-EXCSCOPE ...:exc_vars:restore (2 variants)'),
 ]
 PRESERVING = [
+    ('Cython/Utility/Coroutine.c', '__Pyx_Coroutine_Close: `if (!err) { PyErr_SetNone(PyExc_GeneratorExit); }`', 'silent'),
     ('Cython/Utility/Coroutine.c', 'Close: Undelegate after Py_DECREF(yf), `yf != NULL`; AmSend: `else if (!gen->yieldfrom) SendEx`; SendEx: `resume_label < 0`', 'silent'),
     ('Cython/Compiler/ExprNodes.py', 'restore loop with renamed locals; AsyncGen.c: running flag stored before the state', 'silent'),
     ('Cython/Utility/Coroutine.c', '__Pyx_Generator_Next: `char busy = test_and_set(gen); if (unlikely(busy != 0))`', 'silent'),
@@ -121,7 +127,7 @@ PRESERVING = [
 
 
 def run(ctx):
-    from ..rules import undeleg, sC23, s4C23
+    from ..rules import undeleg, sC23, s4C23, s10C23
     # the quick tier already runs the clang CFG version (about 1 s for the clang call); the thorough tier is the same analysis
     return [pC23.rule_S1(ctx), pC23.rule_S1b(ctx), pC23.rule_S1c(ctx), pC23.rule_YL(ctx), pC23.rule_RL(ctx), undeleg.rule_undelegate(ctx), sC23.rule_slots(ctx),
-            sC23.rule_deleg(ctx), sC23.rule_excstack(ctx), sC23.rule_term(ctx), sC23.rule_iternext(ctx), sC23.rule_agrun(ctx), sC23.rule_resume(ctx), s4C23.rule_excscope(ctx)]
+            sC23.rule_deleg(ctx), sC23.rule_excstack(ctx), sC23.rule_term(ctx), sC23.rule_iternext(ctx), sC23.rule_agrun(ctx), sC23.rule_resume(ctx), s4C23.rule_excscope(ctx), s10C23.rule_errresult(ctx)]
